@@ -353,6 +353,7 @@ func checkC01(p *Prog, r *Report) {
 	// ---- R1.6 both sides order pairs identically ---------------------------------------------
 	r.Rule("R1.6", "The pair priority is symmetric under the role swap (G is the controlling side's candidate priority on both agents) — decided by C17 R17.4, re-checked here on the orientation only.", 2)
 	if pp := p.Fn("CandidatePair.priority"); r.Anchor("CandidatePair.priority", pp != nil) {
+		an := p.pairPriorityAnalysis(pp) // G and D are identified as the operands of the greater-than helper (shared with C17)
 		t := p.NewTable(pp)
 		t.Event = func(n ast.Node, _ *TEnv) []string {
 			as, ok := n.(*ast.AssignStmt)
@@ -360,7 +361,11 @@ func checkC01(p *Prog, r *Report) {
 				return nil
 			}
 			id, ok := as.Lhs[0].(*ast.Ident)
-			if !ok || (id.Name != "g" && id.Name != "d") {
+			if !ok {
+				return nil
+			}
+			name := an.roleName(id)
+			if name != "g" && name != "d" {
 				return nil
 			}
 			c, ok := unparen(as.Rhs[0]).(*ast.CallExpr)
@@ -374,7 +379,7 @@ func checkC01(p *Prog, r *Report) {
 			} else if sel != nil && p.IsField(sel.X, "CandidatePair.Remote") {
 				side = "remote"
 			}
-			return []string{id.Name + "=" + side}
+			return []string{name + "=" + side}
 		}
 		t.Run()
 		for _, pa := range t.Paths {
